@@ -1,6 +1,6 @@
 #!/bin/bash
 # usage: run_finding.sh <pkgdir> <testfile>... [-- repo]   e.g. run_finding.sh websocket d1_pose_test.go
-# Injects the given demonstration tests (from /verif/findings) into the package with `go test -overlay`
+# Injects the given demonstration tests (from /verif/findings) into the package with `go test ${RACE:+-race} -overlay`
 # (nothing is written to the repository) and runs them.
 pkg="$1"; shift
 repo=/repo
@@ -21,7 +21,7 @@ tmp=$(mktemp -d /tmp/hvcfind.XXXXXX)
   done
   echo '}}'
 } > "$tmp/ov.json"
-cd "$repo" && GOFLAGS=-mod=mod GOPROXY=off GOSUMDB=off GOTOOLCHAIN=local go test -overlay "$tmp/ov.json" -vet=off -count=1 -timeout 120s -run 'TestVerif' ./$pkg 2>&1 | tail -15
+cd "$repo" && GOFLAGS=-mod=mod GOPROXY=off GOSUMDB=off GOTOOLCHAIN=local go test ${RACE:+-race} -overlay "$tmp/ov.json" -vet=off -count=1 -timeout 120s -run "${RUN:-TestVerif}" ./$pkg 2>&1 | grep -v "^{\"time" | tail -40
 rc=${PIPESTATUS[0]}
 rm -rf "$tmp"
 exit $rc
